@@ -6,8 +6,8 @@ C20 model (L10): what `COPY … TO` / `COPY … FROM` do with a CSV file.
   sets (src/executor/copy_to_file.rs): `QuoteStyle::Necessary`, `double_quote = true`,
   terminator `\n`; a field is quoted iff it contains the delimiter, the quote, `\r` or `\n`;
   inside quotes the quote byte is doubled; a record that produced no byte at all (one empty
-  field) is written as `""`.  `has_headers` has NO effect on `write_record`: no header line
-  is ever written.
+  field) is written as `""`.  `has_headers` has no effect on `write_record`; with HEADER the executor writes the
+  record of column names itself.
 * reader = `csv_core::Reader` NFA (src/reader.rs `transition_nfa`) with terminator CRLF
   (`\r`, `\n`, `\r\n`), `double_quote = true`, optional escape byte; on top of it
   `csv::Reader` (`has_headers` ⇒ the first record is swallowed; `flexible = false` ⇒ every
@@ -32,13 +32,27 @@ structure Opts where
 
 /-! ### writer -/
 
-def isSpecial (o : Opts) (b : UInt8) : Bool := b == o.delim || b == o.quote || b == 13 || b == 10
+/-- The escape byte the WRITER uses instead of quote doubling: an ESCAPE option different from
+QUOTE (`double_quote(escape.is_none_or(|e| e == quote))`, copy_to_file.rs after fix c296646). -/
+def Opts.wesc (o : Opts) : Option UInt8 :=
+  match o.escape with
+  | some e => if e = o.quote then none else some e
+  | none => none
+
+def isSpecial (o : Opts) (b : UInt8) : Bool :=
+  b == o.delim || b == o.quote || b == 13 || b == 10 || o.wesc == some b
 
 def needsQuote (o : Opts) (f : Bytes) : Bool := f.any (isSpecial o)
 
+/-- inside quotes: the quote is doubled, or — with an escape byte — quote and escape byte are
+both preceded by the escape byte (csv writes escape+quote; RisingLight doubles the escape byte
+itself before handing the field to csv) -/
 def quoteBody (o : Opts) : Bytes → Bytes
   | [] => []
-  | b :: bs => if b = o.quote then b :: b :: quoteBody o bs else b :: quoteBody o bs
+  | b :: bs =>
+    match o.wesc with
+    | none => if b = o.quote then b :: b :: quoteBody o bs else b :: quoteBody o bs
+    | some e => if b = o.quote ∨ b = e then e :: b :: quoteBody o bs else b :: quoteBody o bs
 
 def writeField (o : Opts) (f : Bytes) : Bytes :=
   if needsQuote o f then o.quote :: quoteBody o f ++ [o.quote] else f
@@ -56,6 +70,10 @@ def writeRecord (o : Opts) (r : List Bytes) : Bytes :=
 def writeCsv (o : Opts) : List (List Bytes) → Bytes
   | [] => []
   | r :: rs => writeRecord o r ++ writeCsv o rs
+
+/-- the whole file: with HEADER the record of column names comes first (fix 669035f) -/
+def writeFile (o : Opts) (names : List Bytes) (rows : List (List Bytes)) : Bytes :=
+  (if o.header then writeRecord o names else []) ++ writeCsv o rows
 
 /-! ### reader automaton -/
 
@@ -147,7 +165,7 @@ def cellText : Option DV → Option Bytes
   | some (.i16 v) | some (.i32 v) | some (.i64 v) => some (intDigits v)
   | some (.str s) => some s
   | some (.blob b) => some (displayBlob b)
-  | some (.date d) => match displayDate d with | .ok t => some t | _ => none
+  | some (.date d) => match displayDate d with | .ok t => some t | _ => none   -- never `none` now
   | some (.ts t) => match displayTimestamp t with | .ok t => some t | _ => none
   | some (.interval a b c) => some (displayInterval a b c)
   | some _ => none
@@ -183,7 +201,8 @@ def allSome {α} : List (Option α) → Option (List α)
 def tableTexts (t : Table) : Option (List (List Bytes)) :=
   allSome (t.map fun row => allSome (row.map cellText))
 
-def exportTable (o : Opts) (t : Table) : Option Bytes := (tableTexts t).map (writeCsv o)
+def exportTable (o : Opts) (names : List Bytes) (t : Table) : Option Bytes :=
+  (tableTexts t).map (writeFile o names)
 
 /-- texts of the cells before the first one whose Display panics; `true` = whole row printable -/
 def prefixTexts : List (Option DV) → List Bytes × Bool
@@ -261,13 +280,7 @@ def importCsv (o : Opts) (tys : List Ty) (xs : Bytes) : ImportResult :=
   match readCsv o xs with
   | none => .error
   | some recs =>
-    match importRecords tys recs with
-    | .ok rows =>
-      -- The INSERT above the CopyFrom node casts every column to the table's type, and
-      -- `ArrayImpl::cast` is `todo!()` for Blob arrays: the operator task panics, its channel
-      -- closes, and the statement reports success having inserted nothing.
-      if tys.contains .blob ∧ !rows.isEmpty then .ok [] else .ok rows
-    | e => e
+    importRecords tys recs
 
 end Csv
 end RlModel
